@@ -154,8 +154,14 @@ func (w *World) GenFee(admissibleOnly bool) FeeShape {
 	r := w.R
 	bf := w.C.BaseFee()
 	fs := FeeShape{Type: r.Intn(3)}
+	unit := bf
+	if bf.Sign() == 0 {
+		// a zero base fee: prices are still drawn as non-trivial amounts (multiples of 1 gwei), so that fee caps above the
+		// tip, tips and legacy prices remain distinguishable (all of them are admissible against a base fee of 0)
+		unit = big.NewInt(1_000_000_000)
+	}
 	mul := func(n, d int64) *big.Int {
-		v := new(big.Int).Mul(bf, big.NewInt(n))
+		v := new(big.Int).Mul(unit, big.NewInt(n))
 		return v.Div(v, big.NewInt(d))
 	}
 	k := r.Intn(10)
